@@ -11,6 +11,7 @@ pub mod manager;
 pub mod deduper;
 pub mod session;
 pub mod session_faults;
+pub mod session_conc;
 pub mod cache_seq;
 pub mod cache_conc;
 pub mod reconstruct;
@@ -33,6 +34,8 @@ pub fn run(suite: &str, ctx: &mut Ctx) -> bool {
         "cache_conc" => cache_conc::run(ctx),
         "session_faults" => session_faults::run_parent(ctx),
         "session_faults-child" => session_faults::run_child(ctx),
+        "session_conc" => session_conc::run_parent(ctx),
+        "session_conc-child" => session_conc::run_child(ctx),
         "session" => session::run_parent(ctx),
         "session-child" => session::run_child(ctx),
         "deduper" => deduper::run_parent(ctx),
